@@ -57,7 +57,7 @@ def translate(ctx):
         else:
             text += (f"Lemma {g}_eq : forall ft c a (w : Z), {g} ft c a = {name} ft c a.\n" + tac.format(g=g, m=name))
         res.append((f"symmetry.py:{name}", None, "gen = model (all arguments)"))
-    gfile = core.COQ / "gen" / "Gen_C32.v"
+    gfile = core.gen_path("Gen_C32")
     gfile.parent.mkdir(exist_ok=True)
     gfile.write_text(text)
     ok, out, err = core.coqc(gfile)
